@@ -597,6 +597,12 @@ class Interp:
         return None
 
     def class_attr(self, c: ClassRef, name: str, env=None):
+        if name in ("_make", "_fields", "_field_defaults") and self.is_namedtuple(c):
+            if name == "_fields":
+                return tuple(n for n, _ in self.class_fields(c))
+            if name == "_make":
+                return PyCallable(lambda it, a, k, c=c: it.construct(c, list(it.iterate(a[0])), {}))
+            return {n: self.eval(dn, {"__mod__": m}) for n, (m, dn) in self.class_fields(c) if dn is not None}
         r = self.find_method(c, name)
         if r:
             m, cd, fn = r
@@ -1513,6 +1519,14 @@ class Interp:
         raise Undecided(f"attribute {attr} of {type(base).__name__}")
 
     def container_method(self, b, at, a, k):
+        if at == "__contains__":
+            return self.contains(b, a[0])
+        if at == "__len__":
+            return len([x for x in b if x != "__default_factory__"]) if isinstance(b, dict) else len(b)
+        if at == "__getitem__":
+            return self.eval(ast.Subscript(value=ast.Name(id="__o", ctx=ast.Load()), slice=ast.Name(id="__k", ctx=ast.Load()), ctx=ast.Load()), {"__o": b, "__k": a[0]})
+        if at == "__iter__":
+            return IterObj(self.iterate(b))
         if isinstance(b, list):
             if at == "append":
                 b.append(a[0]); return None
